@@ -531,6 +531,8 @@ func checkC18() *checkDef {
 				{Pkg: "./config", Scenario: "config/update", Params: map[string]any{"depth": d}},
 				{Pkg: "./config", Scenario: "config/persist-faults", Params: map[string]any{}},
 				{Pkg: "./config", Scenario: "config/doc-shapes", Params: map[string]any{}, Workers: 1},
+				// accepted web-server settings handed to the real main.startWebServer
+				{Pkg: "./.", Scenario: "main/startup", Params: map[string]any{}, Workers: 1},
 				// updates accepted while command-line values are in force: the file gets the saved values only
 				{Pkg: "./config", Scenario: "config/override", Params: map[string]any{"depth": 4}},
 				{Pkg: "./proxy", Scenario: "proxy/config-workable", Params: map[string]any{}, Workers: 4},
